@@ -91,6 +91,9 @@ pub const CLUSTERS: &[&str] = &[
     "\u{1F3FB}",
     "\u{200D}",
     "a\u{200C}",
+    // regex metacharacters inside clusters that are NOT split (no mark / other member)
+    "(\u{1F3FB}", ")\u{1F3FC}", "[\u{1F3FD}", "{\u{1F3FE}", "?\u{1F3FF}", "|\u{1F3FB}", "*\u{1F3FB}", "+\u{1F3FB}",
+    "^\u{1F3FB}", "$\u{1F3FB}", "\u{D4E}(", "\u{D4E}[", ")\u{FF9E}", "-\u{1F3FB}",
 ];
 pub const SPACES: &[&str] = &[
     " ", "\t", "\n", "\u{b}", "\u{c}", "\r", "\u{85}", "\u{a0}", "\u{1680}", "\u{2000}", "\u{2003}",
@@ -271,15 +274,17 @@ impl Driver {
                     .chars()
                     .map(|c| c as u32)
                     .collect();
+                // runs are taken in scalar-value order, i.e. across the surrogate gap U+D7FF -> U+E000
+                let index_of = |cp: u32| -> usize { if cp < 0xD800 { cp as usize } else { cp as usize - 0x800 } };
                 for &m in &specials {
-                    for len in 2..=5u32 {
+                    for len in 2..=5usize {
                         for off in 0..len {
-                            let start = m.saturating_sub(off);
+                            let start = index_of(m).saturating_sub(off);
                             let set: Vec<String> = (start..start + len)
-                                .filter_map(char::from_u32)
-                                .map(|c| c.to_string())
+                                .filter(|&i| i < N_SCALARS)
+                                .map(|i| scalar(i).to_string())
                                 .collect();
-                            if set.len() == len as usize {
+                            if set.len() == len {
                                 d.sets.push(set.clone());
                                 // the same run behind a common prefix and with a gap
                                 d.sets.push(set.iter().map(|c| format!("x{}", c)).collect());
@@ -622,6 +627,9 @@ impl Driver {
                 for (mr, ms) in grid {
                     runs.push(run(ctx.with("rep", true).thresholds(mr, ms), &tcs));
                 }
+                // repeat the second build after all the others (no state may leak between builds)
+                let again = RunPlan { cfg: runs[1].cfg.clone(), input: runs[1].input.clone(), schedule: None };
+                runs.push(again);
                 mk(tcs, runs)
             }
             // C06: all 8 subsets of {verbose, capture, escape} in several contexts
@@ -763,6 +771,10 @@ impl Driver {
                         runs.push(RunPlan { cfg: c.clone(), input: l, schedule: Some(schedule) });
                     }
                 }
+                // the very first build once more, after everything else ran on this thread: state left
+                // behind by other settings must not change the result
+                let first = RunPlan { cfg: runs[0].cfg.clone(), input: runs[0].input.clone(), schedule: None };
+                runs.push(first);
                 mk(tcs, runs)
             }
             // C16: stage invariants on mixed inputs with and without repetition / class conversion
